@@ -543,6 +543,26 @@ int main(int argc, char** argv)
                 if (od.ok)
                     d["v"] = dv;
             }
+            if (p.value("big", false))
+            {
+                // a value at a corner of the domain (tens of thousands of markers / points): bytes and values are too large
+                // for TLC to compare, so the record carries sizes and the harness's own verdict on the round trip
+                r["big"] = true;
+                r["same"] = d["out"] == "ok" && d["v"] == p.at("v");
+                r["plen"] = e["payload"].size();
+                json pf = e["prefix"];
+                size_t n = e["payload"].size();
+                r["prefix_ok"] = pf.is_array() && pf.size() == 4 && pf[0] == (int)((n >> 24) & 255) && pf[1] == (int)((n >> 16) & 255) &&
+                                 pf[2] == (int)((n >> 8) & 255) && pf[3] == (int)(n & 255);
+                json sizes = json::object();
+                for (auto& [key, val] : p.at("v").items())
+                    if (val.is_array())
+                        sizes[key] = val.size();
+                r["n"] = sizes;
+                r.erase("v");
+                e.erase("payload");
+                d.erase("v");
+            }
             r["enc"] = e;
             r["dec"] = d;
         }
